@@ -19,6 +19,10 @@ operands); `denote : List K → K[X]` is the polynomial it stands for.  A result
   `n` points `pts n i`, its panic behaviour depends on the length only, and `intt ∘ ntt = id`.  These are the theorems
   `ntt_eq_dft` / `intt_ntt` of property C06 for the Rust NTT.  Under that hypothesis the statements are of the form
   "whenever the operation returns, it returns the product"; the NTT-free arms never panic (separate theorems).
+* The hypothesis `TransformSpec` is discharged for the executable model of the Rust in-place NTT (`TF/Model/Ntt.lean`,
+  property C06) in the sections `BField` / `XField` at the end: `ntt_model_transform_spec` (any field),
+  `primitive_roots_rootOK` (the translated table), and the unconditional corollaries `…_bfield_spec`, `…_xfield_spec`,
+  `ntt_multiply_bx_spec`, `ntt_multiply_xb_spec` about the exact terms the driver evaluates on canonical values.
 * `numThreads` (the value of `available_parallelism()`) is universally quantified, including 0; termination of the
   chunked loop for every value is part of the definition being accepted by Lean (well-founded recursion on the
   number of remaining products).
@@ -547,6 +551,67 @@ theorem fast_square_xfield_total (p : List X3)
   exact fastSquare_isSome_of _ _ p (by rw [hn]; exact xNtt_definedAt k hk)
 example : nextPowerOfTwo (2 * ((Model.Poly.normalize TF.xfieldOps [(0,1,0),(0,0,1)]).length - 1) + 1) ≤ 2^31 := by
   decide +kernel
+
+/-! #### operands over different fields (`B × X`, `X × B`), each transformed over its own field
+
+The driver's `mulBX a b = xscale a b` and `mulXB a b = xscale b a` are the mixed coefficient products; the left
+operand is transformed with its own transform (`bNtt` resp. `xNtt`), the result with `xNtt`. -/
+
+theorem bdenote_map_phi (a : List Nat) : denote ((a.map zc).map φ) = (bdenote a).map φ := by
+  rw [denote_map]; rfl
+
+/-- `fast_multiply` / `multiply` (every threshold) with a `BFieldElement` polynomial on the left and an
+    `XFieldElement` polynomial on the right -/
+theorem ntt_multiply_bx_spec (threshold : Int) (a : List Nat) (b r : List X3) (ha : CanonL a) (hb : CanonL3 b) :
+    (fastMultiplyG TF.bfieldOps TF.xfieldOps (fun x y => xscale x y) bNtt xNtt xNtt a b = some r →
+      xdenote r = (bdenote a).map φ * xdenote b ∧ CanonL3 r) ∧
+    (multiplyG TF.bfieldOps TF.xfieldOps TF.xfieldOps (fun x y => xscale x y) threshold bNtt xNtt xNtt a b = some r →
+      xdenote r = (bdenote a).map φ * xdenote b ∧ CanonL3 r) := by
+  constructor
+  · intro h
+    have hm := fastMultiplyG_map (mul' := fun x y => φ x * (RingHom.id XK) y) bfield_opsMap xfield_opsMap
+      bNtt_transMap xNtt_transMap xNtt_transMap xc_mulBX a b ha hb
+    rw [h, fastMultiplyG_eq_of_hom (algRoot XK) zRoot (algRoot XK) φ (RingHom.id XK) zNtt xkNtt xkNtt
+      zNtt_to_xk xkNtt_id] at hm
+    refine ⟨?_, fastMultiplyG_ok xNtt_transMap a b r h⟩
+    rw [xdenote_eq, fast_multiply_spec (algRoot XK) xkNtt_spec _ _ _ hm.symm, bdenote_map_phi]
+    simp [xdenote]
+  · intro h
+    have hm := multiplyG_map (mul' := fun x y => φ x * (RingHom.id XK) y) bfield_opsMap xfield_opsMap xfield_opsMap
+      bNtt_transMap xNtt_transMap xNtt_transMap xc_mulBX threshold a b ha hb
+    rw [h, multiplyG_eq_of_hom (algRoot XK) zRoot (algRoot XK) φ (RingHom.id XK) zNtt xkNtt xkNtt
+      zNtt_to_xk xkNtt_id] at hm
+    refine ⟨?_, multiplyG_ok xfield_opsMap xNtt_transMap (fun x y => canon3_mod _ _ _) threshold a b r h⟩
+    rw [xdenote_eq, multiply_spec (algRoot XK) xkNtt_spec threshold _ _ _ hm.symm, bdenote_map_phi]
+    simp [xdenote]
+example : fastMultiplyG TF.bfieldOps TF.xfieldOps (fun x y => xscale x y) bNtt xNtt xNtt [1, 2] [(0,0,1),(1,0,0)]
+    = some [(0,0,1), (1,0,2), (2,0,0)] := by decide +kernel
+
+/-- … and with the `XFieldElement` polynomial on the left -/
+theorem ntt_multiply_xb_spec (threshold : Int) (a : List X3) (b : List Nat) (r : List X3) (ha : CanonL3 a) (hb : CanonL b) :
+    (fastMultiplyG TF.xfieldOps TF.bfieldOps (fun x y => xscale y x) xNtt bNtt xNtt a b = some r →
+      xdenote r = xdenote a * (bdenote b).map φ ∧ CanonL3 r) ∧
+    (multiplyG TF.xfieldOps TF.bfieldOps TF.xfieldOps (fun x y => xscale y x) threshold xNtt bNtt xNtt a b = some r →
+      xdenote r = xdenote a * (bdenote b).map φ ∧ CanonL3 r) := by
+  constructor
+  · intro h
+    have hm := fastMultiplyG_map (mul' := fun x y => (RingHom.id XK) x * φ y) xfield_opsMap bfield_opsMap
+      xNtt_transMap bNtt_transMap xNtt_transMap xc_mulXB a b ha hb
+    rw [h, fastMultiplyG_eq_of_hom (algRoot XK) (algRoot XK) zRoot (RingHom.id XK) φ xkNtt zNtt xkNtt
+      xkNtt_id zNtt_to_xk] at hm
+    refine ⟨?_, fastMultiplyG_ok xNtt_transMap a b r h⟩
+    rw [xdenote_eq, fast_multiply_spec (algRoot XK) xkNtt_spec _ _ _ hm.symm, bdenote_map_phi]
+    simp [xdenote]
+  · intro h
+    have hm := multiplyG_map (mul' := fun x y => (RingHom.id XK) x * φ y) xfield_opsMap bfield_opsMap xfield_opsMap
+      xNtt_transMap bNtt_transMap xNtt_transMap xc_mulXB threshold a b ha hb
+    rw [h, multiplyG_eq_of_hom (algRoot XK) (algRoot XK) zRoot (RingHom.id XK) φ xkNtt zNtt xkNtt
+      xkNtt_id zNtt_to_xk] at hm
+    refine ⟨?_, multiplyG_ok xfield_opsMap xNtt_transMap (fun x y => canon3_mod _ _ _) threshold a b r h⟩
+    rw [xdenote_eq, multiply_spec (algRoot XK) xkNtt_spec threshold _ _ _ hm.symm, bdenote_map_phi]
+    simp [xdenote]
+example : multiplyG TF.xfieldOps TF.bfieldOps TF.xfieldOps (fun x y => xscale y x) 1 xNtt bNtt xNtt [(0,0,1),(1,0,0)] [1, 2]
+    = some [(0,0,1), (1,0,2), (2,0,0)] := by decide +kernel
 
 end XField
 
